@@ -231,7 +231,7 @@ func solveAll(results []*FnResult, timeoutS, workers int) {
 			}
 		}
 	}
-	if len(again) == 0 || len(again) > 12 { // many failures: a broken tree, not machine load
+	if len(again) == 0 || len(again) > 40 { // many failures: a broken tree, not machine load
 		return
 	}
 	sem := make(chan struct{}, 4)
